@@ -373,6 +373,11 @@ func runCase(n int, req *Req) (*Out, error) {
 		}
 	case strings.HasPrefix(req.Op, "Subscribe"), req.Op == "Unsubscribe":
 		for i, f := range req.Filters {
+			if i > 8 && f == req.Filters[i-1] {
+				// long lists repeat one class: share the bytes (4096 filters of 65535 bytes would take 256 MiB)
+				wantFilters = append(wantFilters, wantFilters[i-1])
+				continue
+			}
 			wantFilters = append(wantFilters, mk(f, i))
 		}
 		wantType = "SUBSCRIBE"
